@@ -143,7 +143,11 @@ func (g *pqGen) aggregation(d int) string {
 		head, body = pick(g.r, []string{"topk", "bottomk"}), "1, "+inner
 	case 2:
 		dst := pick(g.r, []string{"cv", "a", "job", "cv", "a", "__name__"})
-		head, body = "count_values", fmt.Sprintf(`"%s", %s`, dst, inner)
+		lit := fmt.Sprintf(`"%s"`, dst)
+		if g.p(5) {
+			lit = "(" + lit + ")" // the parser accepts a parenthesised string literal
+		}
+		head, body = "count_values", fmt.Sprintf(`%s, %s`, lit, inner)
 	default:
 		head, body = pick(g.r, pqAggOps), inner
 	}
@@ -617,6 +621,8 @@ func pqSystematicAlways() []string {
 					out = append(out, fmt.Sprintf(`label_replace(%s, "%s", "%s", "b", "%s")`, v, dst, repl, re))
 				}
 			}
+			out = append(out, fmt.Sprintf(`label_replace(%s, ("%s"), "x", "b", "(.*)")`, v, dst), fmt.Sprintf(`label_join(%s, (("%s")), "-", "b")`, v, dst),
+				fmt.Sprintf(`count_values(("%s"), %s)`, dst, v), fmt.Sprintf(`count_values(("__name__"), %s) by(%s)`, v, dst))
 			out = append(out, fmt.Sprintf(`label_join(%s, "%s", "", "c")`, v, dst), fmt.Sprintf(`label_join(%s, "%s", "-", "b", "c")`, v, dst),
 				fmt.Sprintf(`label_join(%s, "%s", "")`, v, dst))
 		}
@@ -634,6 +640,15 @@ func pqSystematicAlways() []string {
 		for _, f := range []string{"%s and on(a) bar", "bar and on(a) %s", "%s * on(a) bar", "bar * on(a) group_left() %s", "sum by(a) (%s)", "%s"} {
 			out = append(out, fmt.Sprintf(f, sel))
 		}
+	}
+	// S12: group_left/group_right(l) copying l from the "one" side (also over a "many" side that removed l), nested as an
+	// operand of an outer operation matching on l
+	for _, inner := range []string{"bar * on(a) group_right(c) sum without(c) (foo)", "sum without(c) (foo) * on(a) group_left(c) bar",
+		"bar * on(a) group_right(c) foo", "foo * on(a) group_left(c) sum by(a, c) (bar)", "sum by(a) (foo) * on(a) group_left(c) bar"} {
+		for _, outer := range []string{"* on(c)", "and on(c)", "* on(c) group_left()"} {
+			out = append(out, fmt.Sprintf("baz %s (%s)", outer, inner), fmt.Sprintf("(%s) %s baz", inner, outer))
+		}
+		out = append(out, inner, "sum by(c) ("+inner+")")
 	}
 	// S7: absent()/absent_over_time() over dead, always-returning and ordinary operands, bare and as the deciding
 	// operand of on() set operators
